@@ -107,3 +107,31 @@ def lemma_residue_incomplete(s: bytes) -> None:
     if tlv_complete(s):
         lemma_tlv_prefix(s, empty())
         lemma_residue_incomplete(drop(s, tlv_len(s)))
+
+
+# ---- any partition into chunks (C02): delivering chunks[i:] one call after the other, starting from the held-back bytes r.
+# By the proved contract of receive, one call with held-back bytes r and data d returns msgs(r ++ d) and holds back
+# residue(r ++ d); deliver_msgs / deliver_residue fold that over the list of chunks.
+def joined(chunks: seqbytes, i: int) -> bytes:
+    return empty() if i >= len(chunks) else cat(chunks[i], joined(chunks, i + 1))
+
+
+def deliver_msgs(r: bytes, chunks: seqbytes, i: int, o: obj) -> seqobj:
+    return nil_obj() if i >= len(chunks) else cat_obj(msgs(cat(r, chunks[i]), o), deliver_msgs(residue(cat(r, chunks[i])), chunks, i + 1, o))
+
+
+def deliver_residue(r: bytes, chunks: seqbytes, i: int) -> bytes:
+    return r if i >= len(chunks) else deliver_residue(residue(cat(r, chunks[i])), chunks, i + 1)
+
+
+def lemma_any_chunking(r: bytes, chunks: seqbytes, i: int, o: obj) -> None:
+    """Delivering the chunks one by one returns the same messages in the same order, and holds back the same bytes, as delivering
+    their concatenation in one call - for every partition (induction over the chunks, lemma_chunk at each step).  r is what a
+    previous call held back, so it does not start with a complete TLV (lemma_residue_incomplete); initially it is empty."""
+    if i < len(chunks):
+        lemma_chunk(cat(r, chunks[i]), joined(chunks, i + 1), o)
+        assert cat(cat(r, chunks[i]), joined(chunks, i + 1)) == cat(r, joined(chunks, i))
+        lemma_residue_incomplete(cat(r, chunks[i]))
+        lemma_any_chunking(residue(cat(r, chunks[i])), chunks, i + 1, o)
+    else:
+        assert cat(r, empty()) == r
